@@ -19,7 +19,8 @@
 EXTENDS Tables, FiniteSets
 
 CONSTANTS QCases,      \* sequence of [id, dw, ds, y]
-          Reach        \* inputs are taken within +-Reach (in units of m) of every edge
+          Reach,       \* inputs are taken within +-Reach (in units of m) of every edge
+          PairOffsets  \* a compressed column holds the input next to inputs m + k, k in PairOffsets
 
 W207(y) == IF y = 0 THEN 0 ELSE (10 * y + 2) \div 3
 Pow10(k) == 10 ^ k
@@ -73,8 +74,21 @@ OutOfRangeMustBeRefused ==
 (* decode(encode(v)) lies on the grid, so encoding it again stores the same integer: canonical fixpoint *)
 FixpointOnGrid == \A N \in Storable(C, m) : Storable(C, 10 * N) = {N}
 
+(* ---- compressed columns: the relation is POINTWISE ------------------------------------------ *)
+(* In compressed data the values of one element travel as minimum + differences.  That is a matter
+   of representation only: what may be stored for one subset's input does not depend on what the
+   other subsets hold.  A column is therefore judged entry by entry with Candidates - in particular
+   when minimum and value are both off the grid and round in opposite directions.
+   (Storable is not demanded of compressed entries: a column is not confined to the field's range
+   by FM-94, only its minimum is.) *)
+Partner(k) == [k |-> k, m |-> m + k, cand |-> Candidates(m + k), storable |-> Storable(C, m + k)]
+Partners == [k \in PairOffsets |-> Partner(k)]
+PointwiseColumn == \A k \in PairOffsets : \A N \in Partners[k].cand : Abs(10 * N - (m + k)) <= 5
+
 Case == [id |-> C.id, dw |-> C.dw, ds |-> C.ds, y |-> C.y, n |-> N_(C), s |-> S_(C), r |-> R_(C), m |-> m,
          storable |-> Storable(C, m), cand |-> Candidates(m),
-         missing |-> {N \in Storable(C, m) : ReadsBack(C, N) = "missing"}]
+         missing |-> {N \in Storable(C, m) : ReadsBack(C, N) = "missing"},
+         partners |-> [i \in 1..Cardinality(PairOffsets) |->
+                         Partner(CHOOSE k \in PairOffsets : Cardinality({j \in PairOffsets : j < k}) = i - 1)]]
 Emit == PrintT(ToJson(Case))
 =============================================================================
